@@ -68,6 +68,7 @@ RULE = ('(a) random single assemblies / 7-position cores with 0-4 unrodded '
         '(c) grid: every d x sign x ordered source pair x request kind. A '
         'case is non-trivial when a mesh of >= 10 steps with >= 1 interior '
         'boundary was checked; distinct by (kind, unit, stress, d, #bounds)')
+RULE += (' Later rounds added kinds timepoints (one Reactor per time point from one parsed input, power files with different meshes) and arcuser (binary-flux power plus a user power file).')
 DECIDING = ['M0_progress_every_call', 'M1_starts_at_zero',
             'M2_ends_at_core_length', 'M3_strictly_increasing',
             'M4_boundary_is_plane', 'M5_step_within_limit',
